@@ -141,6 +141,9 @@ func checkC04(r *Report, known []Finding) {
 		} else {
 			p = patternSource(rng, i, opts)
 		}
+		if i < len(lookbehindProbes) {
+			p = lookbehindProbes[i]
+		}
 		std, err := regexp.Compile(p)
 		if err != nil {
 			continue
@@ -169,8 +172,15 @@ func checkC04(r *Report, known []Finding) {
 		if eng.IsStartAnchored() {
 			anch = "1"
 		}
-		for k := 0; k < nh; k++ {
+		nhp := nh
+		if i < len(lookbehindProbes) {
+			nhp = nh + len(lookbehindHays)
+		}
+		for k := 0; k < nhp; k++ {
 			h := GenHaystack(rng, ast, false)
+			if k >= nh {
+				h = []byte(lookbehindHays[k-nh])
+			}
 			if len(h) > 60 {
 				h = h[:60]
 			}
@@ -298,6 +308,17 @@ func checkC04(r *Report, known []Finding) {
 			}
 			got, want := c.gots[i], c.wants[i]
 			if model == got {
+				if got != want {
+					// the loop did what the model says on the engine's own table, and still the enumeration is not regexp's: the table
+					// (the single-match function at a resume offset) is wrong. On non-ASCII haystacks that is the recorded UTF-8 behaviour
+					// of the engines (open findings of C01-C03); on ASCII input it is a violation of THIS property.
+					if !isASCIIBytes(c.h) {
+						r.Dist["explained-by-engine-table(non-ASCII haystack: UTF-8 findings of C01-C03)"]++
+						continue
+					}
+					r.Violate(fmt.Sprintf("%s of %q on %q [%s]: coregex=%s regexp=%s (the loop model over the engine's own FindIndicesAt table gives the same: the table is wrong at a resume offset)", c.apis[i], c.pattern, c.h, c.strat, got, want),
+						map[string]any{"pattern": c.pattern, "haystack_hex": hexOf(c.h), "api": c.apis[i], "coregex": got, "regexp": want, "model": model, "strategy": c.strat, "request": c.reqs[i]}, false)
+				}
 				continue
 			}
 			tie.Disagreements++
